@@ -508,6 +508,22 @@ fn decode(t: &mut Tape) -> Case {
         }
         states.push(StateSpec { scalars, mem_seed: t.raw() as u64 });
     }
+    // one function in four (never where every scalar is meant to be assigned before it is read):
+    // an instruction scheduler went over a block - two non-branch instructions changed places
+    // through instructions_mut(), so that indices no longer equal positions
+    if !p.definitely_assigned && t.chance(1, 4) {
+        for _ in 0..t.range(1, 2) {
+            let cands: Vec<usize> = (0..b.f.blocks.len()).filter(|k| b.f.blocks[*k].iter().filter(|o| !matches!(o.op, il::Operation::Branch { .. })).count() >= 2).collect();
+            if cands.is_empty() {
+                break;
+            }
+            let blk = cands[t.below(cands.len())];
+            let pos: Vec<usize> = (0..b.f.blocks[blk].len()).filter(|k| !matches!(b.f.blocks[blk][*k].op, il::Operation::Branch { .. })).collect();
+            let i = t.below(pos.len() - 1);
+            let j = i + 1 + t.below(pos.len() - 1 - i);
+            b.f.swaps.push((blk, pos[i], pos[j]));
+        }
+    }
     Case { f: b.f, names: b.names, big_endian, havoc_seed, definitely_assigned: p.definitely_assigned, gadgets: b.gadgets, states }
 }
 
@@ -1162,6 +1178,9 @@ fn check(case: &Case, obs: &mut Obs) -> Result<(), Failure> {
     for g in &case.gadgets {
         obs.class(&format!("gadget-{}", g));
     }
+    if vin.blocks.values().any(|is| is.iter().enumerate().any(|(pos, i)| i.index != pos) && is.iter().map(|i| i.index).max().map(|m| m + 1 == is.len()).unwrap_or(false)) {
+        obs.class("block-permuted-in-place-nothing-removed");
+    }
     for l in &reach {
         if let Some(il::Operation::Intrinsic { intrinsic }) = op_at(&vin, *l) {
             let w = intrinsic.written_expressions();
@@ -1602,6 +1621,7 @@ fn main() -> std::process::ExitCode {
         "guards are exclusive and exhaustive by construction; functions without an entry are not generated; a result of Err is counted but not judged".into(),
     ];
     spec.floors = vec![
+        ("block-permuted-in-place-nothing-removed", 0.04),
         ("dce-ok", 0.80),
         ("dce-removed-something", 0.40),
         ("nontrivial", 0.30),
